@@ -217,9 +217,60 @@ def br_withdraw_portfolio(c):
     c.ob('refusals-and-their-types',
          r == expected([(amount < 0.0, 'ValueError'), (not known, 'KeyError'),
                         (known and amount > W.cash(pid, W.pre), 'ValueError'), (known and b.current_dt < W.clock_(pid, W.pre), 'ValueError')]))
+    if c.mode == 'conc':
+        _other_base_currency(c)
     if r != 'ok':
         return refusal_clauses(c, W, W.pre)
     transfer_clauses(c, W, b, pid, w, amount, -1)
+
+
+def _other_base_currency(c):
+    """(native only) a broker whose base currency is NOT the first of the supported list: transfers in both directions are
+       zero-sum in the BASE currency, the other currencies' master balances stay at zero, a new portfolio is denominated in it"""
+    import pandas as pd
+    from qstrader.broker.simulated_broker import SimulatedBroker
+    from qstrader.broker.fee_model.zero_fee_model import ZeroFeeModel
+    t0 = pd.Timestamp('2020-01-06 14:30:00', tz='UTC')
+    for cur in ('GBP', 'EUR'):
+        b = SimulatedBroker(t0, None, None, base_currency=cur, initial_funds=1000.0, fee_model=ZeroFeeModel())
+        b.create_portfolio('p1', 'first')
+        b.subscribe_funds_to_portfolio('p1', 600.0)
+        b.withdraw_funds_from_portfolio('p1', 250.0)
+        others = [k for k in b.cash_balances if k != cur]
+        c.ob('base-currency-%s/transfers-zero-sum-in-the-base-currency-others-stay-zero' % cur,
+             AND(EQ(b.cash_balances[cur], 650.0), EQ(b.portfolios['p1'].cash, 350.0), all(b.cash_balances[k] == 0.0 for k in others),
+                 b.portfolios['p1'].currency == cur), props=['C01'])
+
+
+def _net_zero_book_is_marked(c):
+    """(native only) a long/short book whose market value nets to exactly zero is still marked at the new prices"""
+    import pandas as pd
+    from qstrader.broker.simulated_broker import SimulatedBroker
+    from qstrader.broker.fee_model.zero_fee_model import ZeroFeeModel
+    from qstrader.broker.transaction.transaction import Transaction
+    t0, t1 = pd.Timestamp('2020-01-06 21:00:00', tz='UTC'), pd.Timestamp('2020-01-07 21:00:00', tz='UTC')
+    mids = {'EQ:aaa': 112.0, 'EQ:bbb': 95.0}
+
+    class DH:
+        def get_asset_latest_mid_price(self, dt, asset):
+            return mids[asset]
+
+        def get_asset_latest_bid_ask_price(self, dt, asset):
+            return (mids[asset], mids[asset])
+
+    class EX:
+        def is_open_at_datetime(self, dt):
+            return False
+    b = SimulatedBroker(t0, EX(), DH(), initial_funds=1000000.0, fee_model=ZeroFeeModel())
+    b.create_portfolio('p1', 'long/short')
+    b.subscribe_funds_to_portfolio('p1', 1000000.0)
+    pf = b.portfolios['p1']
+    pf.transact_asset(Transaction('EQ:aaa', 5000, t0, 100.0, 'o1', commission=0.0))
+    pf.transact_asset(Transaction('EQ:bbb', -5000, t0, 100.0, 'o2', commission=0.0))
+    b.update(t1)
+    c.ob('net-zero-book/every-held-asset-is-marked-at-the-mid-of-dt',
+         AND(EQ(pf.pos_handler.positions['EQ:aaa'].current_price, 112.0), EQ(pf.pos_handler.positions['EQ:bbb'].current_price, 95.0),
+             EQ(b.get_portfolio_total_market_value('p1'), 5000 * 112.0 - 5000 * 95.0)), props=['C02', 'C14'])
 
 
 canary('portfolio withdrawal not credited to the master account', SimulatedBroker, 'withdraw_funds_from_portfolio',
@@ -356,7 +407,7 @@ def _single_portfolio_named_master(c, method, figname):
     b.portfolios['master'].transact_asset(Transaction('EQ:aaa', 1000, t0, 101.5, 'oid', commission=0.0))
     want = {'tmv': 101500.0, 'equity': 600000.0}[figname]
     got = getattr(b, method)()
-    c.ob('single-portfolio-named-master/entry-is-that-portfolio-figure', set(got) == {'master'} and EQ(got['master'], want), props=['C01', 'C02'])
+    c.ob('single-portfolio-named-master/entry-is-that-portfolio-figure', set(got) == {'master'} and EQ(got['master'], want), props=['C01', 'C02', 'C14'])
 
 
 @harness('SimulatedBroker.get_account_total_equity', props=['C01', 'C02', 'C14'], layer='L2', functions=BR_FUNCS)
@@ -594,6 +645,7 @@ class MarkOuter:
             out.append(z3.Implies(z3.Select(done, p), z3.Select(S['pdom'], p)))
             out.append(sel2(W.price, p, G.a0) == z3.If(z3.And(z3.Select(done, p), h), MIDF(G.t, G.a0), sel2(S['price'], p, G.a0)))
             out.append(sel2(W.pclk, p, G.a0) == z3.If(z3.And(z3.Select(done, p), h), G.t, sel2(S['pclk'], p, G.a0)))
+            out.append(z3.Implies(z3.And(z3.Select(done, p), h), MIDF(G.t, G.a0) >= 0))       # a negative mark would have been refused
             out.append(z3.Implies(z3.Not(z3.Select(done, p)), z3.And(z3.Select(W.price, p) == z3.Select(S['price'], p),
                                                                       z3.Select(W.pclk, p) == z3.Select(S['pclk'], p))))
         return z3.And(*out)
@@ -646,6 +698,7 @@ class MarkInner:
         out = []
         for a in pts:
             out.append(z3.Implies(z3.Select(done, a), z3.Select(self.dom, a)))
+            out.append(z3.Implies(z3.Select(done, a), MIDF(G.t, a) >= 0))
             out.append(sel2(W.price, k, a) == z3.If(z3.Select(done, a), MIDF(G.t, a), sel2(S['price'], k, a)))
             out.append(sel2(W.pclk, k, a) == z3.If(z3.Select(done, a), G.t, sel2(S['pclk'], k, a)))
         # other portfolios untouched by this inner loop (instantiated at the focus portfolio)
@@ -924,6 +977,8 @@ def br_update(c):
     c.ob('all-quotes-read-at-dt', AND(*[q[1] == lift(dt) for q in W.queries]), props=['C07'])
     c.ob('portfolio-set-and-master-cash-untouched', AND(W.pdom == pre['pdom'], W.qdom == pre['qdom'], W.master_same(pre)), props=['C01', 'C04'])
     held0 = sel2(pre['held'], P0, A0)
+    # "never a silent acceptance": an update that went through did not have to refuse a negative mark of a held asset
+    c.ob('accepted-only-if-no-held-asset-has-a-negative-mark', IMPLIES(z3.And(z3.Select(pre['pdom'], P0), held0), MIDF(lift(dt), A0) >= 0), props=['C15'])
     if not c.decide(opened):
         c.ob('closed/pending-orders-untouched', W.Q == pre['Q'], props=['C04'])
         c.ob('closed/cash-holdings-history-untouched', AND(W.cashA == pre['cashA'], W.held == pre['held'], W.qty == pre['qty'],
@@ -960,6 +1015,7 @@ def _stable_partition(orders):
 def br_update_conc(c):
     """the same clauses evaluated natively on a REAL broker (two portfolios, two assets, real queues and orders)"""
     import traceback as _tb
+    _net_zero_book_is_marked(c)
     p0, p1, a0, a1 = c.key('p0'), c.key('p1'), c.key('a0'), c.key('a1')
     W = RealWorld(c, [p0, p1], [a0, a1])
     b = W.b
@@ -985,6 +1041,7 @@ def br_update_conc(c):
     c.ob('portfolio-set-and-master-cash-untouched', W.all_same(pre, ('portfolios', 'master')), props=['C01', 'C04'])
     opened = b.exchange.is_open_at_datetime(dt)
     mid = lambda a: b.data_handler.get_asset_latest_mid_price(dt, a)
+    c.ob('accepted-only-if-no-held-asset-has-a-negative-mark', all(not (mid(a) < 0) for p in pre['pf'] for a in pre['pf'][p]['pos']), props=['C15'])
     if not opened:
         c.ob('closed/pending-orders-untouched', W.all_same(pre, ('pending',)), props=['C04'])
         c.ob('closed/cash-holdings-history-untouched', AND(W.all_same(pre, ('cash', 'holdings', 'history')), len(W.fills) == 0), props=['C04', 'C01', 'C02'])
